@@ -227,7 +227,9 @@ Section Single.
     match fst p with Samples _ _ _ _ => False | _ => True end.
 
   Definition INV (st : ast) (past : list (op * out)) : Prop :=
-    wf st /\ Forall (item_ok st) past /\ (a_smp st = false -> Forall no_samples_item past).
+    wf st /\ Forall (item_ok st) past /\
+    (a_smp st = false -> Forall no_samples_item past) /\
+    (a_smp st = false -> a_frq st = None -> Forall (fun p => needs_shots (fst p) = false) past).
 
   Definition reader_ok (o : op) : bool :=
     match o with Samples r _ _ _ => r =? r0 | Freqs r _ _ _ => r =? r0 | _ => true end.
@@ -276,14 +278,324 @@ Section Single.
       + intros C. eapply counts_ok_perm; eauto.
   Qed.
 
+  Lemma explains_nosh w sh sh' o x :
+    needs_shots o = false -> explains cfg w sh o x -> explains cfg w sh' o x.
+  Proof. destruct o; cbn [needs_shots]; try discriminate; auto. Qed.
+
   Lemma item_ok_mono st st' p :
     (forall r e, nth_error (a_execs st) r = Some e -> nth_error (a_execs st') r = Some e) ->
-    (a_sh st' = a_sh st \/ ((forall v, cnt (a_sh st) v = cnt (a_sh st') v) /\ no_samples_item p)) ->
+    (a_sh st' = a_sh st \/ ((forall v, cnt (a_sh st) v = cnt (a_sh st') v) /\ no_samples_item p)
+     \/ needs_shots (fst p) = false) ->
     item_ok st p -> item_ok st' p.
   Proof.
     intros Hex Hsh. unfold item_ok. destruct (target (fst p)) as [r|]; [|auto].
     destruct (nth_error (a_execs st) r) as [e|] eqn:E; [|contradiction].
-    rewrite (Hex r e E). destruct Hsh as [->|[Hp Hns]]; [auto|].
-    destruct (r =? r0); [|auto]. destruct p as [o x]. now apply explains_perm.
+    rewrite (Hex r e E). destruct Hsh as [->|[[Hp Hns]|Hn]]; [auto| |].
+    - destruct (r =? r0); [|auto]. destruct p as [o x]. now apply explains_perm.
+    - destruct (r =? r0); [|auto]. now apply explains_nosh.
+  Qed.
+
+  (* ---------- auxiliary facts for the step lemma *)
+  Lemma forallb_count_all draw l :
+    forallb (fun v => count draw v =? count l v) (draw ++ l) = true -> forall v, cnt draw v = cnt l v.
+  Proof.
+    intros H v. rewrite forallb_forall in H.
+    destruct (in_dec Nat.eq_dec v (draw ++ l)) as [Hin|Hnin].
+    - apply Nat.eqb_eq. apply (H v Hin).
+    - unfold cnt. rewrite in_app_iff in Hnin.
+      rewrite (proj1 (count_occ_not_In Nat.eq_dec draw v)) by tauto.
+      rewrite (proj1 (count_occ_not_In Nat.eq_dec l v)) by tauto. reflexivity.
+  Qed.
+
+  Lemma in_support_spec probs s :
+    in_support k probs s = true -> s < 2 ^ k /\ nth s probs 0%Z <> 0%Z.
+  Proof.
+    unfold in_support. rewrite andb_true_iff, negb_true_iff, Nat.ltb_lt, Z.eqb_neq. tauto.
+  Qed.
+
+  Lemma col_spec reg s : In reg regs -> take_cols (reg_cols Q reg) (to_bin k s) = spec_reg_row cfg reg s.
+  Proof.
+    intros Hin. pose proof (gcol_spec reg [s] Hin) as H. unfold gcol in H. cbn [map] in H. now inversion H.
+  Qed.
+
+  Lemma gf_ok_none sh : forall rs gfl, length gfl = length rs ->
+    Forall (fun gfo : option counter => isSome gfo = false) gfl -> Forall2 (gf_ok sh) rs gfl.
+  Proof.
+    induction rs as [|reg rs IH]; intros [|gfo gfl] Hlen HF; cbn [length] in Hlen; try discriminate; constructor.
+    - inversion HF; subst. destruct gfo; [discriminate | exact I].
+    - apply IH; [lia | now inversion HF].
+  Qed.
+
+  Lemma gf_ok_perm sh sh' rs gfl :
+    (forall v, cnt sh v = cnt sh' v) -> Forall2 (gf_ok sh) rs gfl -> Forall2 (gf_ok sh') rs gfl.
+  Proof.
+    intros Hp. apply Forall2_impl'. intros reg [f|]; cbn [gf_ok]; [|auto].
+    apply counts_ok_perm. now apply cnt_map_perm.
+  Qed.
+
+  Lemma fl_ok sh : forall rs gfl, (forall reg, In reg rs -> In reg regs) ->
+    Forall2 (gf_ok sh) rs gfl ->
+    Forall2 (fun reg f => counts_ok f (map (spec_reg_dec cfg reg) sh)) rs (fl_of rs gfl sh).
+  Proof.
+    intros rs gfl Hin HF. induction HF as [|reg gfo rs gfl Hh Ht IH]; cbn [fl_of]; constructor.
+    - destruct gfo as [f|]; [exact Hh|].
+      rewrite gcol_dec_spec by (apply Hin; now left).
+      split; [apply nodup_calc_freq | intros v; apply lookup_calc_freq].
+    - apply IH. intros reg' H. apply Hin. now right.
+  Qed.
+
+  Lemma fl_ok_some sh rs fl :
+    Forall2 (fun reg f => counts_ok f (map (spec_reg_dec cfg reg) sh)) rs fl ->
+    Forall2 (gf_ok sh) rs (map Some fl).
+  Proof. intros HF. induction HF; cbn [map]; constructor; auto. Qed.
+
+  Lemma fl_bin_ok sh rs fl :
+    Forall2 (fun reg f => counts_ok f (map (spec_reg_dec cfg reg) sh)) rs fl ->
+    Forall2 (fun reg fb => exists f, fb = fbin (length reg) f /\ counts_ok f (map (spec_reg_dec cfg reg) sh))
+            rs (map (fun rf => fbin (length (fst rf)) (snd rf)) (combine rs fl)).
+  Proof. intros HF. induction HF; cbn [combine map fst snd]; constructor; eauto. Qed.
+
+  Lemma reg_freq_ok fdraw : forall rs, (forall reg, In reg rs -> In reg regs) ->
+    Forall2 (gf_ok (expand fdraw)) rs (map (fun reg => Some (reg_freq k (reg_cols Q reg) fdraw)) rs).
+  Proof.
+    induction rs as [|reg rs IH]; intros Hin; cbn [map]; constructor.
+    - cbn [gf_ok]. split; [apply nodup_reg_freq|]. intros v. rewrite lookup_reg_freq.
+      assert (E : map (fun s => to_dec (take_cols (reg_cols Q reg) (to_bin k s))) (expand fdraw)
+                  = map (spec_reg_dec cfg reg) (expand fdraw)).
+      { apply map_ext. intros s. unfold spec_reg_dec. rewrite col_spec by (apply Hin; now left). reflexivity. }
+      rewrite E. reflexivity.
+    - apply IH. intros reg' H. apply Hin. now right.
+  Qed.
+
+  Lemma nth_error_app_some {A} (l l' : list A) r e : nth_error l r = Some e -> nth_error (l ++ l') r = Some e.
+  Proof. intros H. rewrite nth_error_app1; [assumption|]. apply nth_error_Some. congruence. Qed.
+
+  (* ---------- the output of samples() once the shots are materialised *)
+  Lemma result_r0 st e :
+    nth_error (a_execs st) r0 = Some e ->
+    nth_error (m_results (conc st)) r0 = Some (mkres (smp_of st) (a_frq st) r0 e).
+  Proof. intros He. cbn [conc m_results]. rewrite mk_results_nth, He. reflexivity. Qed.
+
+  Lemma mkres_samples smp frq e : r_samples (mkres smp frq r0 e) = smp.
+  Proof. unfold mkres. cbn [r_samples]. now rewrite Nat.eqb_refl. Qed.
+  Lemma mkres_freqs smp frq e : r_freqs (mkres smp frq r0 e) = frq.
+  Proof. unfold mkres. cbn [r_freqs]. now rewrite Nat.eqb_refl. Qed.
+
+  Lemma mat_idem st e d :
+    a_smp st = true -> nth_error (a_execs st) r0 = Some e ->
+    materialise cfg (conc st) r0 d = Some (conc st).
+  Proof.
+    intros Hs He. unfold materialise. rewrite (result_r0 st e He), mkres_samples.
+    unfold smp_of. now rewrite Hs.
+  Qed.
+
+  Lemma step_samples_mat m m1 r b rg d d' :
+    materialise cfg m r d = Some m1 -> materialise cfg m1 r d' = Some m1 ->
+    step_samples cfg m r b rg d = step_samples cfg m1 r b rg d'.
+  Proof. intros H1 H2. unfold step_samples. now rewrite H1, H2. Qed.
+
+  Lemma samples_output st e (b rg : bool) d :
+    wf st -> a_smp st = true -> nth_error (a_execs st) r0 = Some e ->
+    exists x, step_samples cfg (conc st) r0 b rg d = (conc st, x) /\
+              explains cfg (fst e) (a_sh st) (Samples r0 b rg d) x.
+  Proof.
+    intros Hwf Hs He. destruct Hwf as [Hlen _ _ _ Hact].
+    destruct (Hact (or_introl Hs)) as [e' [He' Hshots]]. rewrite He in He'. inversion He'; subst e'.
+    unfold step_samples. rewrite (mat_idem st e d Hs He), (result_r0 st e He), mkres_samples.
+    unfold smp_of. rewrite Hs.
+    destruct rg.
+    - cbn [conc m_gates]. rewrite Hs. rewrite all_gs_build_true by assumption.
+      destruct b; eexists; (split; [reflexivity|]); cbn [explains].
+      + apply map_gcol_spec.
+      + apply map_gcol_dec_spec.
+    - destruct b; eexists; (split; [reflexivity|]); cbn [explains]; [reflexivity|].
+      eapply dec_bin_shots; eauto.
+  Qed.
+
+  Lemma set_samples_mkres smp frq e sm : set_samples (mkres smp frq r0 e) sm = mkres (Some sm) frq r0 e.
+  Proof. unfold set_samples, mkres. cbn [r_w r_nshots r_probs r_freqs]. now rewrite Nat.eqb_refl. Qed.
+  Lemma set_freqs_mkres smp frq e F : set_freqs (mkres smp frq r0 e) F = mkres smp (Some F) r0 e.
+  Proof. unfold set_freqs, mkres. cbn [r_w r_nshots r_probs r_samples]. now rewrite Nat.eqb_refl. Qed.
+  Lemma mkres_probs smp frq r e : r_probs (mkres smp frq r e) = calc_probs n Q (fst e).
+  Proof. reflexivity. Qed.
+  Lemma mkres_nshots smp frq r e : r_nshots (mkres smp frq r e) = snd e.
+  Proof. reflexivity. Qed.
+
+  Lemma Forall_app_one {A} (P : A -> Prop) l x : Forall P l -> P x -> Forall P (l ++ [x]).
+  Proof. intros H1 H2. apply Forall_app. split; [assumption | constructor; [assumption | constructor]]. Qed.
+
+  Lemma support_shots w ns d :
+    length d = ns -> forallb (in_support k (calc_probs n Q w)) d = true -> shots_ok cfg w ns d.
+  Proof.
+    intros Hl Hs. split; [assumption|]. apply Forall_forall. intros s Hin.
+    rewrite forallb_forall in Hs. specialize (Hs s Hin). apply in_support_spec in Hs.
+    now rewrite <- probs_born.
+  Qed.
+
+  Lemma g0_conc st : length (a_gfl st) = length regs -> g0_has_samples (conc st) = a_smp st.
+  Proof. intros H. unfold conc. apply g0_build; [apply Hcfg | exact H]. Qed.
+
+  Lemma step_samples_inv st past (b rg : bool) d :
+    INV st past -> r0 < length (a_execs st) ->
+    oracle_ok cfg (conc st) (Samples r0 b rg d) = true ->
+    exists st' x, step_samples cfg (conc st) r0 b rg d = (conc st', x) /\
+                  INV st' (past ++ [(Samples r0 b rg d, x)]) /\ a_execs st' = a_execs st.
+  Proof.
+    intros [Hwf [Hitems [Hns Hnn]]] Hr Hor.
+    destruct (nth_error (a_execs st) r0) as [e|] eqn:He; [|apply nth_error_None in He; lia].
+    destruct (a_smp st) eqn:Hs.
+    - (* shots already materialised *)
+      destruct (samples_output st e b rg d Hwf Hs He) as [x [Hx Hex]].
+      exists st, x. split; [exact Hx|]. split; [|reflexivity].
+      split; [exact Hwf|]. split; [|split; intros; congruence].
+      apply Forall_app_one; [exact Hitems|].
+      unfold item_ok. cbn [fst snd target]. rewrite He, Nat.eqb_refl. exact Hex.
+    - (* first materialisation: the drawn values become the shots *)
+      pose proof Hwf as [Hlen Hgf Hfrq Hnosamp Hact].
+      destruct Hcfg as [Hne [HndQ HltQ]].
+      set (st' := mka (a_execs st) true d (a_frq st) (a_gfl st) (a_fin st)).
+      assert (Hmat : materialise cfg (conc st) r0 d = Some (conc st')).
+      { unfold materialise. rewrite (result_r0 st e He), mkres_samples. unfold smp_of at 1. rewrite Hs.
+        rewrite g0_conc by assumption. rewrite Hs.
+        cbn [conc m_gates m_results m_final]. rewrite materialise_gates by assumption.
+        unfold smp_of. rewrite Hs. rewrite set_samples_mkres.
+        rewrite (mk_results_update _ _ (Some (map (to_bin k) d)) (a_frq st) _ 0 r0 e) by (reflexivity || assumption).
+        reflexivity. }
+      assert (He' : nth_error (a_execs st') r0 = Some e) by exact He.
+      assert (Hs' : a_smp st' = true) by reflexivity.
+      (* the new abstract state is well formed *)
+      unfold oracle_ok in Hor. rewrite (result_r0 st e He), mkres_samples in Hor.
+      unfold smp_of in Hor. rewrite Hs in Hor.
+      rewrite g0_conc in Hor by assumption. rewrite Hs in Hor.
+      rewrite mkres_freqs, mkres_probs, mkres_nshots in Hor.
+      assert (Hwf' : wf st' /\ Forall (item_ok st') past).
+      { destruct (a_frq st) as [F|] eqn:Hf.
+        - (* shuffle of the expansion of the frequencies *)
+          pose proof (forallb_count_all _ _ Hor) as Hp.
+          destruct Hfrq as [HndF HlF].
+          assert (Hperm : forall v, cnt (a_sh st) v = cnt d v).
+          { intros v. rewrite Hp, (cnt_expand F v HndF). symmetry. apply HlF. }
+          split.
+          + constructor; cbn [st' a_gfl a_sh a_frq a_smp a_execs].
+            * exact Hlen.
+            * eapply gf_ok_perm; eauto.
+            * eapply counts_ok_perm; eauto. split; assumption.
+            * discriminate.
+            * intros _. destruct (Hact (or_intror eq_refl)) as [e0 [He0 [Hl0 HF0]]].
+              exists e0. split; [exact He0|]. split.
+              -- rewrite <- Hl0. symmetry. now apply length_cnt_perm.
+              -- eapply Forall_cnt_perm; eauto.
+          + specialize (Hns eq_refl). rewrite Forall_forall in *. intros p Hin.
+            apply (item_ok_mono st st'); [auto | | auto].
+            right. left. split; [exact Hperm | auto].
+        - (* fresh draw from the probabilities *)
+          apply andb_true_iff in Hor. destruct Hor as [Hl Hsup]. apply Nat.eqb_eq in Hl.
+          split.
+          + constructor; cbn [st' a_gfl a_sh a_frq a_smp a_execs].
+            * exact Hlen.
+            * apply gf_ok_none; [exact Hlen|]. specialize (Hnosamp Hs). exact Hnosamp.
+            * exact I.
+            * discriminate.
+            * intros _. exists e. split; [exact He|]. now apply support_shots.
+          + specialize (Hnn eq_refl eq_refl). rewrite Forall_forall in *. intros p Hin.
+            apply (item_ok_mono st st'); [auto | | auto]. right. right. auto. }
+      destruct Hwf' as [Hwf' Hitems'].
+      destruct (samples_output st' e b rg d Hwf' Hs' He') as [x [Hx Hex]].
+      exists st', x. split.
+      + rewrite (step_samples_mat _ _ _ _ _ _ d Hmat (mat_idem st' e d Hs' He')). exact Hx.
+      + split; [|reflexivity]. split; [exact Hwf'|]. split; [|split; intros; discriminate].
+        apply Forall_app_one; [exact Hitems'|].
+        unfold item_ok. cbn [fst snd target]. rewrite He', Nat.eqb_refl. exact Hex.
+  Qed.
+
+  (* ---------- frequencies(): the two halves of step_freqs *)
+  Definition fill (m : machine) (r : nat) (R : result) (fdraw : counter) : option machine :=
+    match r_freqs R with
+    | Some _ => Some m
+    | None =>
+      if g0_has_samples m || (match r_samples R with Some _ => true | None => false end) then
+        match materialise cfg m r [] with
+        | None => None
+        | Some m' =>
+          match nth_error (m_results m') r with
+          | Some R' =>
+            match r_samples R' with
+            | Some sm => Some (mkm (m_gates m')
+                                  (update_nth r (set_freqs R' (calc_freq (map to_dec sm))) (m_results m'))
+                                  (m_final m'))
+            | None => None
+            end
+          | None => None
+          end
+        end
+      else
+        Some (mkm (map (fun rg => mkg (gs (snd rg)) (Some (reg_freq k (reg_cols Q (fst rg)) fdraw)))
+                       (combine regs (m_gates m)))
+                  (update_nth r (set_freqs R fdraw) (m_results m)) (m_final m))
+    end.
+
+  Definition ftail (m1 : machine) (r : nat) (binary registers : bool) : machine * out :=
+    match nth_error (m_results m1) r with
+    | Some R1 =>
+      match r_freqs R1 with
+      | Some F =>
+        if registers then
+          match opt_all (map gate_freq (m_gates m1)) with
+          | Some gl =>
+              let m2 := mkm (map fst gl) (m_results m1) (m_final m1) in
+              (m2, if binary
+                   then ORegFreqBin (map (fun rf => fbin (length (fst rf)) (snd rf))
+                                         (combine regs (map snd gl)))
+                   else ORegFreqDec (map snd gl))
+          | None => (m1, OErr 2)
+          end
+        else (m1, if binary then OFreqBin (fbin k F) else OFreqDec F)
+      | None => (m1, OErr 3)
+      end
+    | None => (m1, OErr 4)
+    end.
+
+  Lemma step_freqs_unfold m r b rg fd :
+    step_freqs cfg m r b rg fd =
+    match nth_error (m_results m) r with
+    | None => (m, OErr 4)
+    | Some R => match fill m r R fd with None => (m, OErr 1) | Some m1 => ftail m1 r b rg end
+    end.
+  Proof. reflexivity. Qed.
+
+  Lemma freqs_output st e (b rg : bool) F :
+    wf st -> a_frq st = Some F -> nth_error (a_execs st) r0 = Some e ->
+    exists st' x, ftail (conc st) r0 b rg = (conc st', x) /\ wf st' /\
+                  a_sh st' = a_sh st /\ a_execs st' = a_execs st /\ a_smp st' = a_smp st /\
+                  a_frq st' = a_frq st /\
+                  forall fd, explains cfg (fst e) (a_sh st) (Freqs r0 b rg fd) x.
+  Proof.
+    intros Hwf Hf He. pose proof Hwf as [Hlen Hgf Hfrq Hnosamp Hact].
+    unfold ftail. rewrite (result_r0 st e He), mkres_freqs, Hf. rewrite Hf in Hfrq.
+    destruct rg.
+    - set (fl := fl_of regs (a_gfl st) (a_sh st)).
+      assert (Hfl : Forall2 (fun reg f => counts_ok f (map (spec_reg_dec cfg reg) (a_sh st))) regs fl).
+      { apply fl_ok; auto. }
+      assert (Hfll : length fl = length regs) by (apply fl_of_length; exact Hlen).
+      cbn [conc m_gates m_results m_final].
+      rewrite gate_freq_build; [|exact Hlen|].
+      2:{ destruct (a_smp st) eqn:Hs; [now left | right].
+          specialize (Hnosamp eq_refl). rewrite Hf in Hnosamp. exact Hnosamp. }
+      fold fl.
+      rewrite map_fst_combine by (rewrite build_length; rewrite ?map_length; lia).
+      rewrite map_snd_combine by (rewrite build_length; rewrite ?map_length; lia).
+      exists (mka (a_execs st) (a_smp st) (a_sh st) (a_frq st) (map Some fl) (a_fin st)).
+      eexists. split; [reflexivity|].
+      split; [|split; [reflexivity|split; [reflexivity|split; [reflexivity|split; [cbn [a_frq]; exact Hf|]]]]].
+      + constructor; cbn [a_gfl a_sh a_frq a_smp a_execs].
+        * now rewrite map_length.
+        * now apply fl_ok_some.
+        * now rewrite Hf.
+        * intros _. rewrite Hf. clear. induction fl; cbn [map]; constructor; auto.
+        * exact Hact.
+      + intros fd. destruct b; cbn [explains]; [now apply fl_bin_ok | exact Hfl].
+    - exists st. eexists. split; [reflexivity|].
+      split; [exact Hwf|split; [reflexivity|split; [reflexivity|split; [reflexivity|split; [exact Hf|]]]]].
+      intros fd. destruct b; cbn [explains]; [exists F; split; [reflexivity | exact Hfrq] | exact Hfrq].
   Qed.
 End Single.
